@@ -122,6 +122,10 @@ pub trait Prop: Sync {
     fn needs_warm_up(&self) -> bool {
         true
     }
+    /// a feature of the scenario that narrows violation signatures (engine SCHED: which callbacks are installed)
+    fn qualifier(&self, _scenario: &Value) -> String {
+        String::new()
+    }
     /// classify a panic of the code under test (engine SCHED recognises the runtime's deadlock verdict)
     fn classify_panic(&self, loc: &str, msg: &str) -> String {
         let _ = msg;
@@ -314,6 +318,7 @@ fn emit_stats(
 pub fn one_main(prop: &'static dyn Prop, scenario: &Value) -> (Option<Violation>, u64, Cov, Option<Value>) {
     worker_init(prop);
     seams::set_verbose_panics(true);
+    eprintln!("QUALIFIER {}", prop.qualifier(scenario));
     match run_on_pristine_thread(prop, scenario, Duration::from_secs(60)) {
         None => (
             Some(Violation::new(format!("{}/hang", prop.id()), 0, "run exceeded the watchdog")),
@@ -371,7 +376,12 @@ pub fn run_in_new_process(prop_id: &str, scenario: &Value, tag: &str) -> OneOutc
             let rest = &l["PANIC at ".len()..];
             let (loc, msg) = rest.split_once(": ").unwrap_or((rest, ""));
             let base = all_props_classify(prop_id, loc, msg);
-            format!("{}+abort", base)
+            let q = stderr.lines().find_map(|l| l.strip_prefix("QUALIFIER ")).unwrap_or("").to_string();
+            if q.is_empty() {
+                format!("{}+abort", base)
+            } else {
+                format!("{}/{}+abort", base, q)
+            }
         }
         None => format!("{}/abort", prop_id),
     };
